@@ -146,6 +146,21 @@ pub fn case(ctx: &mut Ctx, idx: u64) {
         // settings over the documented ranges (release) / game ranges (debug build: realistic domain)
         let dom = if debug_build { SetDomain::Game } else { SetDomain::Documented };
         let mut spec = sets::gen_setspec(&mut rng, mode, dom);
+        // mania has mods that exist only as lazer mods and rewrite the whole map (Random with a seed, HoldOff, Invert); the
+        // shared generator reaches each of them in ~4 % of the sweeps, too thin once it has to meet a rare map class as well
+        // (e.g. native maps with 11-18 keys): a third of the mania sweeps carries at least one of them
+        if mode == rosu_pp::model::mode::GameMode::Mania && rng.chance(0.35) {
+            spec.mods.repr = sets::Repr::Lazer;
+            match rng.below(3) {
+                0 => spec.mods.extra.random = Some(Some(rng.range(0, 100_000) as f64)),
+                1 => spec.mods.extra.invert = true,
+                _ => spec.mods.extra.ho = true,
+            }
+            if rng.chance(0.3) {
+                spec.mods.extra.random = Some(Some(rng.range(0, 100_000) as f64));
+            }
+            ctx.count("class:mania-sweep-with-lazer-only-map-rewriting-mod");
+        }
         if rng.chance(0.3) {
             spec.passed = Some(match rng.below(5) {
                 0 => 0,
@@ -167,6 +182,12 @@ pub fn case(ctx: &mut Ctx, idx: u64) {
         let d = spec.to_difficulty(mode);
         let gm = spec.mods.to_gamemods(mode);
         ctx.count(&format!("sweep:{mname}"));
+        if mode == rosu_pp::model::mode::GameMode::Mania && map.mode == mode && map.cs > 10.0 {
+            ctx.count("class:native-mania-more-than-10-keys");
+            if matches!(spec.mods.extra.random, Some(Some(_))) && spec.mods.is_lazer_like() {
+                ctx.count("class:native-mania-more-than-10-keys+random-seed");
+            }
+        }
 
         // conversions (3 entry points)
         let conv = step(ctx, "convert", mname, &detail, text, || map.clone().convert(mode, &gm));
